@@ -1,6 +1,12 @@
 (* C18 -- Logging never fails the caller, stays bounded, and its files read back.
-   Property theorems only; proofs live in lib/LogBufProofs.v; the model lib/LogBuf.v interprets the constants and
-   shape facts translated from logging/{log,levels,incident,flogfile,publish}.py into gen/LogBufGen.v. *)
+   Property theorems only; proofs live in lib/LogBufProofs.v, LogOrderProofs.v, LogJsonProofs.v, LogFileProofs.v,
+   LogFmtProofs.v, LogReentProofs.v; the model lib/LogBuf.v interprets the constants and shape facts translated from
+   logging/{log,levels,incident,flogfile,publish}.py into gen/LogBufGen.v.
+   Review 2 (second strangers' review): (1) the event number is of any kind (e_numk) and the sort key of the snapshot /
+   the catch-up batch is translated; the incident / catch-up theorems carry the exact guard nohost with the refuted side
+   stated; (2) field preservation for ANY event dict, format events included; (3) per-line read-back theorems without a
+   hypothesis on the whole file; (4) the incident file theorem covers both reporters, the limit of C18_msg_total
+   (BaseException) is stated, every proof here is `exact`. *)
 From Coq Require Import ZArith List Bool Lia Sorting.Sorted Sorting.Permutation.
 Import ListNotations.
 Require Import Verif.lib.PyLite Verif.gen.LogBufGen Verif.lib.LogBuf Verif.lib.LogBufProofs.
@@ -12,7 +18,11 @@ Local Open Scope Z_scope.
    unhashable facility, failing str(), negative size limit, failing incident reporter) -- returns a number.
    (By the form of msg(): the model's `step` is total because msg's two handlers -- translated fact msg_catch_all, matched
    literally: `except Exception` around _msg, bare `except: pass` around the replacement event -- leave no path on which an
-   exception escapes; what _msg itself can raise on hostile values is the oracle's part.) *)
+   exception escapes; what _msg itself can raise on hostile values is the oracle's part.
+   LIMIT of "never raises" (review 2, finding 4): the outer handler is `except Exception` (log.py msg), not a bare except:
+   a BaseException that is not an Exception -- KeyboardInterrupt / SystemExit / GeneratorExit raised by a __str__ /
+   __repr__ of a logged value or by an immediate observer -- is NOT caught and escapes msg().  The model's `raised` flag
+   stands for Exception subclasses only; the oracle replays a __str__ raising KeyboardInterrupt as an observation.) *)
 Theorem C18_msg_total : forall c s o, is_call o = true -> exists n, snd (step c s o) = Some n.
 Proof. exact msg_total. Qed.
 Print Assumptions C18_msg_total.
@@ -46,7 +56,7 @@ Print Assumptions C18_buffer_within_limit_after_event.
 Theorem C18_buffers_bounded : forall M c ops,
   DEFAULT_SIZELIMIT <= M -> Forall (op_limit_le M) ops ->
   forall f l, Z.of_nat (List.length (buf_get (s_bufs (fst (run c init ops))) f l)) <= M.
-Proof. intros M c ops H1 H2. exact (buffers_bounded_from_init M c ops H1 H2). Qed.
+Proof. exact buffers_bounded_from_init. Qed.
 Print Assumptions C18_buffers_bounded.
 
 (* the same over histories in which the synchronous incident handling fails (c_fault: the qualifier raises, or
@@ -56,10 +66,7 @@ Print Assumptions C18_buffers_bounded.
 Theorem C18_buffers_bounded_under_incident_faults : forall M segs,
   DEFAULT_SIZELIMIT <= M -> Forall (fun cs => Forall (op_limit_le M) (snd cs)) segs ->
   forall f l, Z.of_nat (List.length (buf_get (s_bufs (run_segs init segs)) f l)) <= M.
-Proof.
-  intros M segs H1 H2. assert (0 <= M) by (unfold DEFAULT_SIZELIMIT in H1; lia).
-  apply buffers_bounded_segs; [assumption | exact H2 | apply init_sizes_le; exact H1 | apply init_bufs_le; assumption].
-Qed.
+Proof. exact buffers_bounded_segs_from_init. Qed.
 Print Assumptions C18_buffers_bounded_under_incident_faults.
 
 (* "... each remote subscriber at most its queue limit with a bounded number in flight) and subscribers see an
@@ -68,7 +75,7 @@ Theorem C18_subscriber_bounded : forall ops,
   let s := sub_run MAX_QUEUE_SIZE MAX_IN_FLIGHT ops in
   Z.of_nat (List.length (q_queue s)) <= MAX_QUEUE_SIZE /\ 0 <= q_inflight s <= MAX_IN_FLIGHT /\
   subseq (q_delivered s) (q_emitted s) /\ subseq (q_delivered s ++ q_queue s) (q_emitted s).
-Proof. intros ops. apply subscriber_bounded; unfold MAX_QUEUE_SIZE, MAX_IN_FLIGHT; discriminate. Qed.
+Proof. exact subscriber_bounded_real. Qed.
 Print Assumptions C18_subscriber_bounded.
 
 (* the same for any limits (the correspondence also runs Subscription subclasses with small limits) *)
@@ -82,17 +89,23 @@ Print Assumptions C18_subscriber_bounded_any_limits.
 (* "an incident file contains its triggering event and everything that was buffered, and one unrepresentable event
    never prevents other events or later incidents from being recorded": whenever an event of incident level is added
    while no recording is in progress -- WHATEVER the buffers hold (e_ok arbitrary: non-text keys, cycles, huge
-   integers, deep nesting ...) and whatever happened before -- add_event does not raise and
-     NonTrailing: the published file is  trigger :: buffered events sorted by number,
+   integers, deep nesting ...; numbers of ANY kind the sort key is total on: integers and, since 7a22019, every other
+   object -- 'x', None, 1.5, a list, an instance: NumOdd) and whatever happened before -- add_event does not raise and
+     NonTrailing: the published file is  trigger :: buffered events sorted by the translated key,
      Trailing:    a timed reporter holds exactly those lines (published by C18_incident_trailing below).
-   FULL STRENGTH; rests on the translated fact serialize_total = true (three-stage fallback in flogfile): with it
-   `enc e` is constantly true, so the quantification over e_ok is free.  That flag is no longer only syntactic: the chain
-   it stands for is modelled in lib/LogJson.v and C18_serialize_never_raises (below) proves that it always yields a line;
-   C18_incident_recorded_when_encodable is the statement that does not use the flag. *)
+   FULL STRENGTH in e_ok; rests on the translated fact serialize_total = true (three-stage fallback in flogfile).
+   EXACT GUARD in the numbers (review 2, finding 1: the model's e_num : Z used to exclude num='x', on which the real
+   code lost the incident): nohost = no buffered event's number is an object on which isinstance(num, int) ITSELF
+   raises.  That guard is needed and sharp: C18_incident_lost_when_sort_raises is the other side, true of the real
+   code (replayed: num = an object whose __class__ property raises; reported, signature oracle/incident-lost-hostile-num).
+   The sort key is the TRANSLATED one (incident_sort_key, read from incident.py; catchup_sort_key from publish.py): were
+   the key `a['num']` again, the proofs below would no longer build and the model would predict the loss
+   (C18_raw_sort_key_loses_incidents). *)
 Theorem C18_one_bad_event_harmless : forall c sz b i e,
   c_fault c = NoFault -> c_qual c = true -> incident_level <= e_lvl e -> i_rep i = None -> i_zombie i = false ->
   0 <= limit_of sz (e_fac e) (e_lvl e) ->
   let a := add_event c sz b i e in
+  nohost (x_bufs a) ->
   x_raised a = false /\
   (c_trailing c = false ->
      i_files (x_inc a) = i_files i ++ [e :: sort_by_num (all_buffered (x_bufs a))] /\
@@ -103,10 +116,37 @@ Theorem C18_one_bad_event_harmless : forall c sz b i e,
 Proof. exact incident_recorded. Qed.
 Print Assumptions C18_one_bad_event_harmless.
 
-(* the file's lines are a permutation of what was buffered, in event-number order; the trigger is among them *)
+(* outside the guard: one buffered number on which isinstance(.., int) raises and the incident is lost -- _msg raises
+   (msg turns that into an internal-error event), nothing is published, the NonTrailing reporter's files are abandoned,
+   the trailing reporter stays subscribed without a timer and swallows every later trigger *)
+Theorem C18_incident_lost_when_sort_raises : forall c sz b i e,
+  c_fault c = NoFault -> c_qual c = true -> incident_level <= e_lvl e -> i_rep i = None -> i_zombie i = false ->
+  0 <= limit_of sz (e_fac e) (e_lvl e) ->
+  let a := add_event c sz b i e in
+  existsb is_hostile (all_buffered (x_bufs a)) = true ->
+  x_raised a = true /\ i_files (x_inc a) = i_files i /\ i_recorded (x_inc a) = i_recorded i /\
+  (c_trailing c = false -> i_junk (x_inc a) = i_junk i + 1 /\ i_rep (x_inc a) = None) /\
+  (c_trailing c = true -> i_rep (x_inc a) = Some (mkRep e [] TRAILING_EVENT_LIMIT false)).
+Proof. exact incident_lost_when_sort_raises. Qed.
+Print Assumptions C18_incident_lost_when_sort_raises.
+
+(* the regression statement for the key before 7a22019 (provable whichever key is translated): with `a['num']` the
+   history  msg('a', num='x'); msg('b'); msg('trigger', level=BAD); msg('later', level=BAD)  loses both incidents.  On this
+   tree the same history records both (Example ex_odd_num_recorded, corpus/C18/noninteger_num.json). *)
+Theorem C18_raw_sort_key_loses_incidents : incident_sort_key = KeyRaw ->
+  let s := fst (run (mkCfg true false NoFault) init (odd_history NumOdd)) in
+  i_files (s_inc s) = [] /\ i_recorded (s_inc s) = 0 /\ i_junk (s_inc s) = 2.
+Proof. exact raw_sort_key_loses_incidents. Qed.
+Print Assumptions C18_raw_sort_key_loses_incidents.
+
+(* the file's lines are a permutation of what was buffered, ordered by the translated key: the integer-numbered events in
+   event-number order, the others (key -1: before every non-negative number) in the order the buffers hold them; the
+   trigger is among them *)
 Theorem C18_incident_complete : forall l,
-  (forall x, In x (sort_by_num l) <-> In x l) /\ StronglySorted num_le (sort_by_num l).
-Proof. intros l. split; [intros x; apply sort_in | apply sort_sorted]. Qed.
+  (forall x, In x (sort_by_num l) <-> In x l) /\ StronglySorted num_le (sort_by_num l) /\
+  StronglySorted int_num_le (sort_by_num l) /\
+  filter (fun x => negb (is_int x)) (sort_by_num l) = filter (fun x => negb (is_int x)) l.
+Proof. exact incident_complete. Qed.
 Print Assumptions C18_incident_complete.
 
 Theorem C18_trigger_is_buffered : forall c sz b i e,
@@ -131,17 +171,24 @@ Theorem C18_incident_timer_publishes : forall c s r,
 Proof. exact timer_publishes. Qed.
 Print Assumptions C18_incident_timer_publishes.
 
-(* over ANY history no incident is ever abandoned (.flog / .flog.bz2.tmp left behind) *)
-Theorem C18_nothing_abandoned : forall c ops, i_junk (s_inc (fst (run c init ops))) = 0.
-Proof. intros c ops. rewrite nothing_abandoned. reflexivity. Qed.
+(* over ANY history in which no call passes a num= on which isinstance(.., int) raises (op_not_hostile: every other num=
+   is allowed) no incident is ever abandoned (.flog / .flog.bz2.tmp left behind) ... *)
+Theorem C18_nothing_abandoned : forall c ops, Forall op_not_hostile ops -> i_junk (s_inc (fst (run c init ops))) = 0.
+Proof. exact nothing_abandoned_from_init. Qed.
 Print Assumptions C18_nothing_abandoned.
+
+(* ... and the guard is needed: the full statement is refuted by the model, and by the real code on the same history
+   (Example ex_hostile_num_lost; oracle witness family "hostile") *)
+Theorem C18_nothing_abandoned_refuted : exists c ops, i_junk (s_inc (fst (run c init ops))) <> 0.
+Proof. exact nothing_abandoned_refuted_hostile. Qed.
+Print Assumptions C18_nothing_abandoned_refuted.
 
 (* independent of the form of serialize_to_json_utf8: valid for every history whose buffered events can be encoded *)
 Theorem C18_incident_recorded_when_encodable : forall c sz b i e,
   c_fault c = NoFault -> c_qual c = true -> incident_level <= e_lvl e -> i_rep i = None -> i_zombie i = false ->
   0 <= limit_of sz (e_fac e) (e_lvl e) ->
   let a := add_event c sz b i e in
-  enc e = true -> forallb enc (all_buffered (x_bufs a)) = true ->
+  nohost (x_bufs a) -> enc e = true -> forallb enc (all_buffered (x_bufs a)) = true ->
   x_raised a = false /\
   (c_trailing c = false -> i_files (x_inc a) = i_files i ++ [e :: sort_by_num (all_buffered (x_bufs a))]) /\
   (c_trailing c = true ->
@@ -150,19 +197,26 @@ Proof. exact incident_recorded_guarded. Qed.
 Print Assumptions C18_incident_recorded_when_encodable.
 
 (* "each remote subscriber at most its queue limit" also for subscribers that ask for catch-up, whatever the buffers
-   hold (far more than MAX_QUEUE_SIZE events included): the catch-up batch -- everything buffered, in number order --
-   goes straight to the observer; queue and in-flight counter start empty and stay within their limits *)
+   hold (far more than MAX_QUEUE_SIZE events included): the catch-up batch -- everything buffered, ordered by the
+   translated key of publish.py (integer numbers in number order) -- goes straight to the observer; queue and in-flight
+   counter start empty and stay within their limits.  Same exact guard as for incidents (nohost); outside it the
+   subscriber is handed NO catch-up batch (C18_catchup_lost_when_sort_raises: subscribe() raises after registering). *)
 Theorem C18_subscriber_bounded_after_catchup : forall catch_up b ops,
-  let '(s0, direct) := sub_subscribe catch_up b in
+  let '(s0, direct, raised) := sub_subscribe catch_up b in
   let s := fold_left (sub_step MAX_QUEUE_SIZE MAX_IN_FLIGHT) ops s0 in
   q_queue s0 = [] /\ q_inflight s0 = 0 /\
-  (catch_up = true -> Permutation direct (all_buffered b) /\ StronglySorted num_le direct) /\
+  (catch_up = true -> nohost b ->
+     raised = false /\ Permutation direct (all_buffered b) /\ StronglySorted (key_le catchup_sort_key) direct /\
+     StronglySorted int_num_le direct) /\
   Z.of_nat (List.length (q_queue s)) <= MAX_QUEUE_SIZE /\ 0 <= q_inflight s <= MAX_IN_FLIGHT /\
   subseq (q_delivered s ++ q_queue s) (q_emitted s).
-Proof.
-  intros catch_up b ops. apply subscriber_bounded_after_catchup; unfold MAX_QUEUE_SIZE, MAX_IN_FLIGHT; discriminate.
-Qed.
+Proof. exact subscriber_bounded_after_catchup_real. Qed.
 Print Assumptions C18_subscriber_bounded_after_catchup.
+
+Theorem C18_catchup_lost_when_sort_raises : forall b,
+  existsb is_hostile (all_buffered b) = true -> sub_subscribe true b = (sub_init, [], true).
+Proof. exact catchup_lost_when_sort_raises. Qed.
+Print Assumptions C18_catchup_lost_when_sort_raises.
 
 (* "Every event that is written to a log or incident file can be read back", the COMPRESSION layer only (the records are
    opaque here; what a record reads back as is C18_event_reads_back / C18_file_reads_back / C18_logfile_events_read_back /
@@ -188,8 +242,8 @@ Print Assumptions C18_logfile_codec_matches.
 Theorem C18_trigger_in_window_recorded : forall c f fac lvl ok rp id,
   c_fault c = NoFault -> c_qual c = true -> i_rep (s_inc (f_s f)) = None ->
   incident_level <= lvl -> cmpZ threshold_drop_cmp lvl (threshold_of (s_thr (f_s f)) fac) = false ->
-  0 <= limit_of (s_sizes (f_s f)) fac lvl ->
-  let e := mkEv (s_seq (f_s f) + 1) fac lvl ok id in
+  0 <= limit_of (s_sizes (f_s f)) fac lvl -> nohost (s_bufs (f_s f)) ->
+  let e := mkEv (s_seq (f_s f) + 1) fac lvl ok id NumInt in
   let '(f', r, n) := fcall c f (Msg None fac lvl ok rp id) in
   r = Some (e_num e) /\ f_closing f' = f_closing f /\ n = [] /\
   (c_trailing c = true -> exists lines, i_rep (s_inc (f_s f')) = Some (mkRep e lines TRAILING_EVENT_LIMIT true)) /\
@@ -255,6 +309,42 @@ Theorem C18_trigger_reads_back : forall L ty more e n l m j,
 Proof. exact trigger_fields_survive. Qed.
 Print Assumptions C18_trigger_reads_back.
 
+(* (review 2, finding 2) the two theorems above speak of events with a text 'message' and integer number / level
+   (is_event).  An event logged with format= has NO 'message' key, a level may be a float, a number any object.  What
+   the three stages preserve of ANY event dict: every member whose value is a JSON scalar (None, bool, float, text,
+   integer below 2^64: `stable`), under whatever text key -- number, level, message, format string, named arguments *)
+Theorem C18_event_field_reads_back : forall L from rx e kv s v j0 j,
+  is_event_dict e kv -> pfield s kv = Some v -> stable v j0 -> serialize L (wrap from rx e) = Ok j ->
+  exists d, event_of_line j = Some d /\ jfield s d = Some j0.
+Proof. exact event_field_survives. Qed.
+Print Assumptions C18_event_field_reads_back.
+
+Theorem C18_trigger_field_reads_back : forall L ty more e kv s v j0 j,
+  is_event_dict e kv -> pfield s kv = Some v -> stable v j0 -> serialize L (header ty e more) = Ok j ->
+  exists d, trigger_of_header j = Some d /\ jfield s d = Some j0.
+Proof. exact trigger_field_survives. Qed.
+Print Assumptions C18_trigger_field_reads_back.
+
+(* a format event: number, level, format string and every scalar named argument read back.  NOT preserved: the TEXT that
+   format_message renders, when a named argument needed the fallback encoder -- it reads back as its replacement record
+   (Example ex_format_arg_replaced: `%(x)s` shows the record where the emitted event showed str(x)); the property's
+   "same ... message" holds for the format string and the scalar arguments only.  PARTIAL with respect to rendering. *)
+Theorem C18_format_event_reads_back : forall L from rx e n l f args jn jl jf j,
+  is_format_event e n l f args -> stable n jn -> stable l jl -> stable f jf ->
+  serialize L (wrap from rx e) = Ok j ->
+  exists d, event_of_line j = Some d /\ jfield K_num d = Some jn /\ jfield K_level d = Some jl /\ jfield K_format d = Some jf /\
+            Forall (fun a => forall ja, stable (snd a) ja -> jfield (fst a) d = Some ja) args.
+Proof. exact format_event_fields_survive. Qed.
+Print Assumptions C18_format_event_reads_back.
+
+(* (review 2, finding 3) a whole file LINE BY LINE: no write raises, one line per event in order, and every line reads
+   back what its OWN event warrants (line_ok: number / level / message of an is_event, every scalar member of any event
+   dict) -- whatever the other lines hold.  C18_file_reads_back below is the all-lines corollary of round 5. *)
+Theorem C18_file_lines_read_back : forall L from rx (evs : list pv), lims_ok L ->
+  exists js, write_lines L from rx evs = Some js /\ Forall2 line_ok evs js.
+Proof. exact file_lines_read_back. Qed.
+Print Assumptions C18_file_lines_read_back.
+
 (* a whole file written with serialize_wrapper: no write raises and get_events yields every event, in order *)
 Theorem C18_file_reads_back : forall L from rx (evs : list (pv * (Z * Z * Z))), lims_ok L ->
   Forall (fun x => is_event (fst x) (fst (fst (snd x))) (snd (fst (snd x))) (snd (snd x))) evs ->
@@ -272,19 +362,35 @@ Theorem C18_logfile_events_read_back : forall L (payload : event -> pv) (msg : e
 Proof. exact logfile_events_read_back. Qed.
 Print Assumptions C18_logfile_events_read_back.
 
-(* ... and "an incident file contains its triggering event and everything that was buffered", down to what a reader gets:
-   the file the logger model publishes for a trigger is  trigger :: lines, the trigger is among the lines, the header
-   line reads back the trigger's number / level / message and every buffered event's line reads back its own *)
-Theorem C18_incident_file_reads_back : forall L (payload : event -> pv) (msg : event -> Z) from rx ty c sz b i e, lims_ok L ->
-  (forall x, In x (all_buffered (x_bufs (add_event c sz b i e))) -> is_event (payload x) (e_num x) (e_lvl x) (msg x)) ->
+(* the same line by line, without any hypothesis on the events *)
+Theorem C18_logfile_lines_read_back : forall L (payload : event -> pv) from rx name_bz2 (evs : list event), lims_ok L ->
+  exists js, write_lines L from rx (map payload evs) = Some js /\
+             read_back name_bz2 (write_codec logfile_codec_from name_bz2 false) js = Some js /\
+             Forall2 (fun x j => line_ok (payload x) j) evs js.
+Proof. exact logfile_lines_read_back. Qed.
+Print Assumptions C18_logfile_lines_read_back.
+
+(* ... and "an incident file contains its triggering event and everything that was buffered", down to what a reader gets,
+   for BOTH reporters (review 2, finding 4: the default reporter is the trailing one; the round-5 statement required
+   c_trailing = false) and LINE BY LINE (finding 3): the lines written at the moment of the trigger are a permutation of
+   everything buffered, the trigger among them; NonTrailing publishes  trigger :: lines  at once, the trailing reporter
+   holds them and C18_incident_trailing / C18_incident_timer_publishes publish  trigger :: lines ++ later events;
+   the header line reads back the trigger (number / level / message of an is_event; every scalar member of any event
+   dict), each event line reads back what its own event warrants.  Guard: nohost (exact, see above). *)
+Theorem C18_incident_file_reads_back : forall L (payload : event -> pv) from rx ty c sz b i e, lims_ok L ->
   c_fault c = NoFault -> c_qual c = true -> incident_level <= e_lvl e -> i_rep i = None -> i_zombie i = false ->
-  1 <= limit_of sz (e_fac e) (e_lvl e) -> c_trailing c = false ->
+  1 <= limit_of sz (e_fac e) (e_lvl e) ->
   let a := add_event c sz b i e in
+  nohost (x_bufs a) ->
   exists lines,
-    i_files (x_inc a) = i_files i ++ [e :: lines] /\ In e lines /\
-    (exists jh d, serialize L (header ty (payload e) []) = Ok jh /\ trigger_of_header jh = Some d /\
-                  view3 d = fields (e_num e) (e_lvl e) (msg e)) /\
-    (exists js, write_lines L from rx (map payload lines) = Some js /\ map line_view js = map (ev_fields msg) lines).
+    (c_trailing c = false -> i_files (x_inc a) = i_files i ++ [e :: lines]) /\
+    (c_trailing c = true -> i_rep (x_inc a) = Some (mkRep e lines TRAILING_EVENT_LIMIT true)) /\
+    In e lines /\ Permutation lines (all_buffered (x_bufs a)) /\
+    (exists jh, serialize L (header ty (payload e) []) = Ok jh /\
+       (forall n l m, is_event (payload e) n l m -> exists d, trigger_of_header jh = Some d /\ view3 d = fields n l m) /\
+       (forall kv s v j0, is_event_dict (payload e) kv -> pfield s kv = Some v -> stable v j0 ->
+          exists d, trigger_of_header jh = Some d /\ jfield s d = Some j0)) /\
+    (exists js, write_lines L from rx (map payload lines) = Some js /\ Forall2 (fun x j => line_ok (payload x) j) lines js).
 Proof. exact incident_file_reads_back. Qed.
 Print Assumptions C18_incident_file_reads_back.
 
@@ -293,7 +399,7 @@ Print Assumptions C18_incident_file_reads_back.
    never exceed the counter, which never exceeds MAX_IN_FLIGHT *)
 Theorem C18_subscriber_window : forall ops,
   let s := sub_run MAX_QUEUE_SIZE MAX_IN_FLIGHT ops in 0 <= q_outstanding s <= q_inflight s /\ q_inflight s <= MAX_IN_FLIGHT.
-Proof. intros ops. apply subscriber_window; unfold MAX_QUEUE_SIZE, MAX_IN_FLIGHT; discriminate. Qed.
+Proof. exact subscriber_window_real. Qed.
 Print Assumptions C18_subscriber_window.
 
 (* "subscribers see an order-preserving subsequence": logger and Subscription composed.  After ANY history `pre` a
@@ -308,9 +414,10 @@ Theorem C18_subscriber_sees_ordered : forall c pre ops sops catch_up maxq maxfl,
   0 <= maxq -> 0 <= maxfl -> Forall auto_only pre -> Forall auto_only ops ->
   let s0 := fst (run c init pre) in
   sends_of sops = map e_num (run_sends c s0 ops) ->
-  let q0 := fst (sub_subscribe catch_up (s_bufs s0)) in
-  let direct := snd (sub_subscribe catch_up (s_bufs s0)) in
+  let q0 := fst (fst (sub_subscribe catch_up (s_bufs s0))) in
+  let direct := snd (fst (sub_subscribe catch_up (s_bufs s0))) in
   let q := fold_left (sub_step maxq maxfl) sops q0 in
+  snd (sub_subscribe catch_up (s_bufs s0)) = false /\
   StronglySorted Z.le (map e_num direct ++ q_delivered q ++ q_queue q) /\
   Forall (fun n => n <= s_seq s0) (map e_num direct) /\
   Forall (fun n => s_seq s0 < n) (q_delivered q ++ q_queue q) /\
